@@ -30,6 +30,11 @@ func (*C17) Plan(tier string) orch.Plan {
 	return orch.Plan{Episodes: n, Batch: 1}
 }
 
+// lower-case words that may or may not name a level in the build under test; which of them do is
+// asked of the world before the first registration (no table of names or aliases is kept here)
+var c17Words = []string{"panic", "fatal", "error", "err", "warn", "warning", "info", "information", "debug", "dbg", "dev", "devel", "develop", "development",
+	"trace", "verbose", "off", "no", "none", "disabled", "disable", "always", "ok", "okay", "success", "fail", "failed", "failure", "notice", "hint", "critical", "crit"}
+
 func (p *C17) Gen(seed uint64, i int, tier string) *scen.Scenario {
 	r := scen.NewRng(scen.Mix(seed, scen.HashString("C17"), uint64(i)))
 	sc := &scen.Scenario{Property: "C17", Engine: "PROC", Seed: scen.Mix(seed, 117, uint64(i)) >> 12}
@@ -44,7 +49,8 @@ func (p *C17) Gen(seed uint64, i int, tier string) *scen.Scenario {
 		scen.Op{Op: "new_root", R: 2, Name: "gate", Named: true, Opts: []scen.Op{{Kind: "writer", W: 3}, {Kind: "errwriter", W: 3}, {Kind: "level", Lvl: model.Warn}, {Kind: "color", B: []bool{false}}}},
 		// the default logger reports unknown level strings through its own Warn: give it a sim destination
 		opSetWriter(0, 9, "plain"), opSetErrWriter(0, 9, "plain"),
-		scen.Op{Op: "level_query"},
+		// the first query also asks which lower-case words already name a level (aliases included)
+		scen.Op{Op: "level_query", S: c17Words},
 	)
 	var usedV []int
 	var usedT []string
@@ -71,7 +77,7 @@ func (p *C17) Gen(seed uint64, i int, tier string) *scen.Scenario {
 		var title string
 		switch c := r.Intn(10); {
 		case c < 1:
-			title = scen.Pick(r, []string{"info", "warn", "warning", "dev", "off", "error", "ok"})
+			title = scen.Pick(r, c17Words)
 		case c < 2:
 			title = scen.Pick(r, []string{"INFO", "Info", "WARN", "Debug", "OFF"})
 		case c < 3 && len(usedT) > 0:
@@ -236,6 +242,14 @@ func (p *C17) Check(sc *scen.Scenario, run *orch.Run, env *orch.Env) []orch.Viol
 				continue
 			}
 			raw := o.Rets[0].V
+			if prevQ == nil {
+				// before any registration: every lower-case word ParseLevel understands is a name in use
+				for w, lv := range q.Parses {
+					if lv != -99999 && w == strings.ToLower(w) {
+						names[w] = lv
+					}
+				}
+			}
 			// what did the preceding registration do?
 			if i > 0 && sc.Setup[i-1].Op == "register_level" {
 				rop := &sc.Setup[i-1]
